@@ -193,23 +193,25 @@ def parse_printed_json(out, prefix):
 _BOUNDARY = ('{"ev":"Init"', '{"ev":"Start"', '{"ev":"Conflict"', '{"ev":"Pipe"', '{"ev":"Mut"', '{"ev":"Cli"')
 
 
-def split_shards(shards, max_lines=700):
+def split_shards(shards, max_lines=700, min_bytes=1500000):
     """TLC loads a whole trace into memory (ndJsonDeserialize): large shards are cut into chunks at points where the trace
     specification's state is reset anyway (a World event that does not continue a behaviour; Init / Start events; any line of
-    the one-event-per-case traces). Returns the chunk files (mismatch line numbers then refer to the chunk)."""
+    the one-event-per-case traces). A chunk is closed at the first such point after max_lines lines AND min_bytes bytes (traces
+    of small events are not cut into thousands of JVM runs). Returns the chunk files (mismatch line numbers then refer to the chunk)."""
     out = []
     for sh in shards:
         n = sum(1 for _ in open(sh))
-        if n <= max_lines:
+        if n <= max_lines or os.path.getsize(sh) <= min_bytes:
             out.append(sh)
             continue
         k = 0
         cur = None
         cnt = 0
+        nbytes = 0
         with open(sh) as f:
             for ln in f:
                 boundary = ln.startswith(_BOUNDARY) or (ln.startswith('{"ev":"World"') and '"chain":false' in ln[:400])
-                if cur is None or (cnt >= max_lines and boundary):
+                if cur is None or (cnt >= max_lines and nbytes >= min_bytes and boundary):
                     if cur:
                         cur.close()
                     k += 1
@@ -217,8 +219,10 @@ def split_shards(shards, max_lines=700):
                     cur = open(path, 'w')
                     out.append(path)
                     cnt = 0
+                    nbytes = 0
                 cur.write(ln)
                 cnt += 1
+                nbytes += len(ln)
         if cur:
             cur.close()
         os.remove(sh)
@@ -362,10 +366,12 @@ class Verdict:
 
 
 def write_evidence(prop, tier, level, coverage, assumptions, wall, violations):
-    os.makedirs(os.path.join(VERIF, 'evidence'), exist_ok=True)
+    # runs against a scratch worktree (VERIF_REPO, used to try seeded changes) never touch the committed evidence
+    evdir = os.path.join(VERIF, 'evidence') if REPO == '/repo' else os.path.join('/dev/shm', 'verif-evidence-scratch')
+    os.makedirs(evdir, exist_ok=True)
     ev = dict(property_id=prop, tier=tier, seed=seed(), level=level, coverage=coverage, assumptions=assumptions,
               wall_s=round(wall, 2), violations=violations)
-    with open(os.path.join(VERIF, 'evidence', prop + '.json'), 'w') as f:
+    with open(os.path.join(evdir, prop + '.json'), 'w') as f:
         json.dump(ev, f, indent=1, sort_keys=True)
     return ev
 
